@@ -106,6 +106,22 @@ def run_task(task):
         out["instance"]["reset"] = fp.digest(fp.mirp_snapshot(gen.get_random_mirp(reset_seed=True)))
         out.update(three([("arc", m.get_arc_based)]))
         return out
+    if parts[0] == "reexit":
+        # exit arcs added, MORE ports added, exit arcs added again: the order in which the new exit arcs enter the graph
+        # (hence the arc-based variable order) must not depend on hash randomisation
+        from vrpqubo.applications.mirp import MIRP
+        m = MIRP(cargo_size=1, time_horizon=5)
+        m.add_nodes("S1", 0.5, 0.5, 1.5)
+        m.add_nodes("D1", 1.0, -0.5, 1.5)
+        m.add_exit_arcs()
+        for nm in ("Quay", "Berth", "Alpha"):
+            m.add_nodes(nm, 0.5, 0.5, 1.5)
+        m.add_nodes("D2", 1.25, -0.25, 1.5)
+        m.add_exit_arcs()
+        sup = {"S1": 0, "Quay": 0, "Berth": 0, "Alpha": 0}
+        m.add_travel_arcs(lambda p, q: 1, vessel_speed=1, cost_per_unit_distance=2, supply_port_fees=sup, demand_port_fees={"D1": 1, "D2": 1})
+        m.add_entry_arcs(time_limit=4)
+        return three([("arc", m.get_arc_based)])
     if parts[0] == "sym":
         # MIRPs with indistinguishable ports: the greedy construction meets exact ties, so whatever random draw
         # breaks them must come from the re-seeded stream, not from the caller's generator state
